@@ -12,7 +12,7 @@ def own(name, script, finding):
 
 
 def run(tier, seed):
-    cfgs = ["flush-basic", "flush-self", "flush-chain"] if tier == "quick" else \
+    cfgs = ["flush-basic", "flush-twice", "flush-chain"] if tier == "quick" else \
         ["flush-basic", "flush-self", "flush-chain", "flush-twice", "flush-idle", "flush-rename"]
     return connloop.run("C14", tier, seed, cfgs, own, RULE, 150 if tier == "quick" else None)
 
